@@ -575,7 +575,8 @@ class Engine:
                 'path_summaries': paths, 'dropped': sorted(dropped), 'wall_s': round(time.time() - t0, 3),
                 'props': c.props, 'trusted': c.trusted,
                 'replay_info': {'spec': c.spec, 'let': c.let, 'requires': c.requires, 'kind': kind, 'harness': c.harness,
-                                'module': c.module, 'native_patches': c.native_patches}}
+                                'module': c.module, 'native_patches': c.native_patches, 'loop': c.loop,
+                                'params': list(c.params.keys())}}
 
     def run_path(self, c, m, ci, node, kind, prefix, pid):
         path = Path(self, prefix)
@@ -693,7 +694,7 @@ class Engine:
                     pass
                 else:
                     path.oblige(f'{c.name}#unexpected-{en}', False, kind='raises',
-                                where=f'undeclared exception {en}{exc.eargs!r}')
+                                where=f'undeclared exception {en}{exc.eargs!r} raised at {getattr(it, "last_line", None)}')
         finally:
             it.old_env = None
         for ob in path.obligs:
